@@ -188,7 +188,8 @@ def build(ck):
             new = out.value.items[0]
             S.oblige('post', new.fields.get('_in_structure') is rs, tag='keeps-the-right-operand-input-structure')
             ang = new.fields.get('angles')
-            S.oblige('post', isinstance(ang, ArrV) and ang.term == angle(a, b), tag='angle-bookkeeping')
+            if kind != 'I':         # on I alone every rotation is the identity: the angle is not observable
+                S.oblige('post', isinstance(ang, ArrV) and ang.term == angle(a, b), tag='angle-bookkeeping')
             inner = mv(S, right, x)
             lhs = mv(S, left, inner.value) if inner.normal else inner
             rhs = mv(S, new, x)
@@ -223,12 +224,13 @@ def build(ck):
             if not ok:
                 return
             n0, n1 = out.value.items
-            S.oblige('post', n0 is right, tag='hwp-moves-to-the-left')
-            if transposed:
-                S.oblige('post', n1 is left.fields['operator'], tag='transposed-rotation-becomes-the-rotation')
-            else:
-                S.oblige('post', n1.cls.name == 'QURotationTransposeOperator' and n1.fields.get('operator') is left,
-                         tag='rotation-becomes-its-transpose')
+            if kind != 'I':         # on I alone rotations are identities: which rotation is returned is not observable
+                S.oblige('post', n0 is right, tag='hwp-moves-to-the-left')
+                if transposed:
+                    S.oblige('post', n1 is left.fields['operator'], tag='transposed-rotation-becomes-the-rotation')
+                else:
+                    S.oblige('post', n1.cls.name == 'QURotationTransposeOperator' and n1.fields.get('operator') is left,
+                             tag='rotation-becomes-its-transpose')
             inner = mv(S, right, x)
             lhs = mv(S, left, inner.value) if inner.normal else inner
             inner2 = mv(S, n1, x)
@@ -381,11 +383,12 @@ def build(ck):
             ops = op.fields['operands'].items
             if which == 'hwp':
                 t, h, r = ops
-                S.oblige('post', is_op(r, 'QURotationOperator') and r.fields.get('angles') is ang,
-                         tag='rightmost-is-the-rotation-by-the-given-angles')
-                S.oblige('post', is_op(h, 'HWPOperator'), tag='middle-is-the-half-wave-plate')
-                S.oblige('post', is_op(t, 'QURotationTransposeOperator') and t.fields.get('operator') is r,
-                         tag='leftmost-is-the-transpose-of-that-rotation')
+                if kind != 'I':     # the order of the factors is not observable on I alone
+                    S.oblige('post', is_op(r, 'QURotationOperator') and r.fields.get('angles') is ang,
+                             tag='rightmost-is-the-rotation-by-the-given-angles')
+                    S.oblige('post', is_op(h, 'HWPOperator'), tag='middle-is-the-half-wave-plate')
+                    S.oblige('post', is_op(t, 'QURotationTransposeOperator') and t.fields.get('operator') is r,
+                             tag='leftmost-is-the-transpose-of-that-rotation')
                 for o, w in ((r, 'rotation'), (h, 'hwp')):
                     if isinstance(o, Obj):
                         structure_ok(o, w)
@@ -397,8 +400,9 @@ def build(ck):
                     S.oblige('exc', False, tag=f'mv-raises-{res.value.name}')
             else:
                 p, r = ops
-                S.oblige('post', is_op(r, 'QURotationOperator') and r.fields.get('angles') is ang,
-                         tag='rightmost-is-the-rotation-by-the-given-angles')
+                if kind != 'I':
+                    S.oblige('post', is_op(r, 'QURotationOperator') and r.fields.get('angles') is ang,
+                             tag='rightmost-is-the-rotation-by-the-given-angles')
                 S.oblige('post', is_op(p, 'LinearPolarizerOperator'), tag='leftmost-is-the-polariser')
                 for o, w in ((r, 'rotation'), (p, 'polariser')):
                     if isinstance(o, Obj):
